@@ -136,10 +136,23 @@ Definition minmax_col (ys : list Q) (y : Q) : Q :=
   let lo := qminl ys in let hi := qmaxl ys in
   if Qeq_bool hi lo then y - lo else (y - lo) / (hi - lo).
 Definition count (f : Q -> bool) (ys : list Q) : Z := Z.of_nat (length (filter f ys)).
-(* QuantileTransformer(uniform) with n_quantiles = n_samples on its own sample: mid-rank / (n-1) *)
+(* QuantileTransformer(uniform) with n_quantiles = n_samples on its own sample: the minimum is sent to 0, the maximum to 1
+   (in that order: X_col[upper] = 1 ; X_col[lower] = 0), every other value to its mid-rank / (n-1) *)
 Definition quantile_col (ys : list Q) (y : Q) : Q :=
-  inject_Z (count (fun x => qltb x y) ys + count (fun x => Qle_bool x y) ys - 1)
-  / inject_Z (2 * (Z.of_nat (length ys) - 1)).
+  if Qeq_bool y (qminl ys) then 0
+  else if Qeq_bool y (qmaxl ys) then 1
+  else inject_Z (count (fun x => qltb x y) ys + count (fun x => Qle_bool x y) ys - 1)
+       / inject_Z (2 * (Z.of_nat (length ys) - 1)).
+(* With repeated values np.nanpercentile may return a quantile a few ulps away from the repeated sample value, and the
+   transform then returns some value between the lowest and the highest rank of the tied group instead of the mid-rank
+   (still the same value for equal inputs, still increasing).  The correspondence uses these bounds; [quantile_col]
+   is the idealised mid-rank.  For distinct values lo = hi = rank/(n-1). *)
+Definition quantile_lo (ys : list Q) (y : Q) : Q :=
+  if Qeq_bool y (qminl ys) then 0 else if Qeq_bool y (qmaxl ys) then 1
+  else inject_Z (count (fun x => qltb x y) ys) / inject_Z (Z.of_nat (length ys) - 1).
+Definition quantile_hi (ys : list Q) (y : Q) : Q :=
+  if Qeq_bool y (qminl ys) then 0 else if Qeq_bool y (qmaxl ys) then 1
+  else inject_Z (count (fun x => Qle_bool x y) ys - 1) / inject_Z (Z.of_nat (length ys) - 1).
 Definition scale_col (sk : sckind) (ys : list Q) (y : Q) : Q :=
   match sk with ScId => y | ScMinMax => minmax_col ys y | ScQuantile => quantile_col ys y end.
 (* a scaler per objective column j applied to every row *)
